@@ -21,9 +21,9 @@
 #include <frg/allocation.hpp>
 #include <frg/eternal.hpp>
 #include <frg/tuple.hpp>
-#define atomic verif_atomic
+#include "../engine/verif_atomic_begin.hpp"
 #include <frg/rcu_radixtree.hpp>
-#undef atomic
+#include "../engine/verif_atomic_end.hpp"
 #include "../engine/verif.hpp"
 
 const char *verif_harness = "radix_conc";
